@@ -263,8 +263,8 @@ def landing_tail(group, prop, fromx, script_ref):
                     lo, hi = prop.boundaries[p]
                     return (0.5 * (lo + hi) - loc) / scale
             return 0.0
-        if group == 'bd':
-            return (0.75 if n % 2 else -0.75) / scale
+        if group == 'bd':      # steps +1, -1, then 0 for a one-integer domain with successive jumps
+            return (0.75, -0.75, 0.25, -0.25)[n % 4] / scale
         if group == 'nd':
             return 0.75 / scale
         if group == 'ang':
@@ -415,8 +415,9 @@ def judge(spec, prop, fromx, res):
         return [('%s-raises' % g, '%s.jump(%r) raised %s' % (fam, fromx, res['exc']))]
     if kind == 'budget':
         if spec.get('stall_is_failure'):
-            return [('%s-stall' % g, '%s.jump(%r) (scales %r) proposed nothing within %d base draws' % (
-                fam, fromx, scale_of(prop), res['script'].budget))]
+            key = 'bounded-eigenvector-corner-stall' if g == 'be' else '%s-stall' % g
+            return [(key, '%s.jump(%r) (bounds %r, scales %r) proposed nothing within %d base draws' % (
+                fam, fromx, dict(prop.boundaries), scale_of(prop), res['script'].budget))]
         return out
     if kind == 'starved':
         return out
@@ -692,8 +693,9 @@ def agree(mode, model_line, real, spec=None):
 
 BOXES = [(0.0, 1.0), (-2.0, 3.0), (1e6, 1e6 + 1.0), (-1e-3, 1e-3), (-5.0, -4.5), (0.1, 0.30000000000000004)]
 SCALES = [1e-12, 1e-6, 1e-3, 0.1, 1.0, 10.0, 1e3, 1e6, 1e12]
+ADAPT_BOXES = [(0.0, 1.0), (-2.0, 3.0), (-5.0, -4.5)]
 INT_BOXES = [(0, 3), (-3, 2), (-0.5, 4.2), (5, 6), (-7, -7), (0, 1000000)]
-KAPPAS = [1e-12, 1e-8, 1e-3, 0.2464955401, 1.0, 5.0, 17.2372612, 100.0, 500.0, 600.0, 700.0, 709.0]
+KAPPAS = [1e-12, 1e-8, 1e-3, 0.2464955401, 1.0, 5.0, 17.2372612, 100.0, 500.0, 600.0, 700.0, 705.0]
 
 
 def positions_box(lo, hi, rng):
@@ -753,7 +755,9 @@ def gen_bn(rng, tier, full):
     for fam in GROUPS['bn'][1:]:
         for a in adapt_specs(rng, tier):
             for n in (1, 2, 3):
-                boxes = [BOXES[(n + j) % 3] for j in range(n)]
+                # (boxes near the origin: the Andrieu-Thoms variant starts its running mean at 0, so
+                # a box at 1e6 makes its *adaptation run* crawl -- a matter of C14, not of this property)
+                boxes = [ADAPT_BOXES[(n + j) % 3] for j in range(n)]
                 spec = dict(family=fam, n=n, bounds=[list(b) for b in boxes], adapt=a)
                 names = param_names(n)
                 for k in range(3):
@@ -770,6 +774,8 @@ def gen_discrete(rng, tier, full):
             for bi in range(len(INT_BOXES) if bounded else 2):
                 boxes = [INT_BOXES[(bi + j) % len(INT_BOXES)] for j in range(n)]
                 for succ in itertools.product((False, True), repeat=n):
+                    if bounded and any(math.floor(b[0]) == math.ceil(b[1]) and not sc for b, sc in zip(boxes, succ)):
+                        continue      # a one-integer domain without successive jumps has no valid proposal at all
                     for s in stds:
                         spec = dict(family=fam0, n=n, std=[s] * n, successive=list(succ))
                         if bounded:
@@ -874,14 +880,23 @@ def gen_be(rng, tier, full):
                     d = dict(mids)
                     d[p] = v
                     yield case(spec, d, z=[0.1] * 3, u=[0.9, 0.5, 0.5, 0.5], tail=None)
-        # corners (and, in 3-D, edges): every eigenvector line leaves the box in both directions
-        spec = dict(family='bounded_eigenvector', n=n, bounds=[list(b) for b in boxes],
-                    cov=_cov(n, 1.0, boxes, rng), stall_is_failure=True)
+        # corners (and, in 3-D, edges): an eigenvector line may leave the box in both directions.
+        # A correct proposal lands within a few draws (acceptance probability of order 1 at these
+        # scales); the budget only bounds the work spent on a loop that never lands.
+        budget = 20000 if full else 6000
         corners = list(itertools.product(*boxes))
-        for ci, c in enumerate(corners if full else corners[:4]):
-            fromx = dict(zip(names, c))
-            for seed in range(2 if not full else 4):
-                yield case(spec, fromx, z=[], u=[], tail=['real', 1000 * ci + seed + 1], budget=20000)
+        if n == 2:      # a fixed covariance, every corner, each eigenvector selected by the scripted uniform
+            spec = dict(family='bounded_eigenvector', n=2, bounds=[list(b) for b in boxes],
+                        cov=[[1.0, 1.5], [1.5, 12.5]], stall_is_failure=True)
+            for ci, c in enumerate(corners):
+                for uc in (0.0, 1 - 2.0 ** -53):
+                    yield case(spec, dict(zip(names, c)), z=[], u=[0.9, uc], tail=['real', 77 + ci], budget=budget)
+        if full:
+            spec = dict(family='bounded_eigenvector', n=n, bounds=[list(b) for b in boxes],
+                        cov=_cov(n, 1.0, boxes, rng), stall_is_failure=True)
+            for ci, c in enumerate(corners):
+                for seed in range(3):
+                    yield case(spec, dict(zip(names, c)), z=[], u=[], tail=['real', 1000 * ci + seed + 1], budget=budget)
     for a in adapt_specs(rng, tier)[:4]:
         n = 2
         boxes = boxes_all[:n]
@@ -1078,15 +1093,16 @@ def describe(c):
     return d
 
 
-def run_suite(cases, do_model=True, stats=None):
-    """Run `cases` on the real code; judge them; and (optionally) through the model.
+def run_suite(cases, do_model=True, stats=None, model_every=1):
+    """Run `cases` on the real code; judge every one of them; send every
+    `model_every`-th through the Lean model as well.
 
     Returns (findings, divergences, stats).  findings: (key, text, payload)."""
     stats = stats if stats is not None else {}
     findings = {}
     reqs = []
     distinct = set()
-    for c in cases:
+    for ci, c in enumerate(cases):
         prop, res = run_case(c)
         fam = c['spec']['family']
         g = GROUP_OF[fam]
@@ -1113,7 +1129,7 @@ def run_suite(cases, do_model=True, stats=None):
                                              'how_to_replay': './check C12 --replay <this file>'})
             stats.setdefault('_finding_counts', {}).setdefault(key, 0)
             stats['_finding_counts'][key] += 1
-        if do_model:
+        if do_model and ci % model_every == 0:
             pr = protocol(c['spec'], prop, c['fromx'], res)
             if pr is not None:
                 reqs.append((c, pr))
